@@ -14,11 +14,12 @@
      [op |-> "CALL", kind, to, io, il, oo, ol]            kind in CALL | STATICCALL | DELEGATECALL | CALLCODE, to in
                                                           "B" | "P1" (ecrecover) | "P2" (sha256) | "P3" (ripemd160) |
                                                           "P4" (identity); input = mem[io .. io+il), out window [oo .. oo+ol)
-     [op |-> "CREATE", init, val] [op |-> "CREATE2", init, val]     constructor script init, endowment val wei
+     [op |-> "CREATE", init, val] [op |-> "CREATE2", init, val, salt]   constructor script init, endowment val wei
      [op |-> "RDSIZE", c]                                 mem[c] := RETURNDATASIZE (in bytes)
      [op |-> "RDCOPY", d, o, l]                           RETURNDATACOPY: mem[d .. d+l) := buffer[o .. o+l)
      [op |-> "CDCOPY", d, l]                              CALLDATACOPY: mem[d .. d+l) := input[0 .. l) zero padded
      [op |-> "LOGD", t, o, l]                             LOG1 topic t, data mem[o .. o+l)
+     [op |-> "SSTORE", k, v] [op |-> "SLOAD", k, c]       storage[ctx][k] := v;  mem[c] := storage[ctx][k]
      [op |-> "RETURN", o, l] [op |-> "REVERT", o, l] [op |-> "STOP"] [op |-> "INVALID"]         (end of script = STOP)
 
    Reference rules (EIP-211, EIP-140, EIP-214, yellow paper):
@@ -61,85 +62,119 @@ NewName(n) == "N" \o ToString(n)
 
 \* ghost G: frames entered (entry order) with class and the memory they ended with, flags pushed by calls/creates
 \* rdhist: <<what completed, class, words handed back, words in the caller's buffer afterwards>>
-InitGhost == [frames |-> <<>>, flags |-> <<>>, nc |-> 0, reuse |-> "", rdhist |-> <<>>]
+InitGhost == [frames |-> <<>>, flags |-> <<>>, nc |-> 0, reuse |-> "", c2 |-> <<>>, rdhist |-> <<>>]
+\* storage: a set of <<account, slot, value>> with at most one entry per (account, slot); absent = zero
+Get(stor, a, k) == IF \E e \in stor : e[1] = a /\ e[2] = k THEN (CHOOSE e \in stor : e[1] = a /\ e[2] = k)[3] ELSE Zero
+Put(stor, a, k, v) == {e \in stor : ~(e[1] = a /\ e[2] = k)} \cup {<<a, k, v>>}
 Hist(G, what, class, retlen, rdlen) == [G EXCEPT !.rdhist = Append(@, <<what, class, retlen, rdlen>>)]
 AddFlag(G, fr, kind, to, ok) == [G EXCEPT !.flags = Append(@, <<fr.depth, kind, to, ok>>)]
 
-Done(class, ret, mem, logs, G) == [class |-> class, ret |-> ret, mem |-> mem, logs |-> logs, G |-> G]
+Done(class, ret, mem, W, G) == [class |-> class, ret |-> ret, mem |-> mem, W |-> W, G |-> G]
 
-RECURSIVE Run(_, _, _, _, _, _), Enter(_, _, _), DoCall(_, _, _, _, _, _), DoCreate(_, _, _, _, _, _)
+RECURSIVE Run(_, _, _, _, _, _), Enter(_, _, _), DoCall(_, _, _, _, _, _), DoCreate(_, _, _, _, _, _, _)
 
-\* execute the steps i.. of frame fr with memory mem, return data buffer rd, surviving logs so far, ghost G
-Run(fr, i, mem, rd, logs, G) ==
-  IF i > Len(fr.script) THEN Done("ok", <<>>, mem, logs, G)
+\* execute the steps i.. of frame fr with memory mem, return data buffer rd, surviving world W (logs, storage, created accounts) so far, ghost G
+Run(fr, i, mem, rd, W, G) ==
+  IF i > Len(fr.script) THEN Done("ok", <<>>, mem, W, G)
   ELSE LET st == fr.script[i] IN
-    CASE st.op = "STOP" -> Done("ok", <<>>, mem, logs, G)
-      [] st.op = "RETURN" -> Done("ok", Slice(mem, st.o, st.l), mem, logs, G)
-      [] st.op = "REVERT" -> Done("revert", Slice(mem, st.o, st.l), mem, logs, G)
-      [] st.op = "INVALID" -> Done("invalid", <<>>, mem, logs, G)
-      [] st.op = "MSTORE" -> Run(fr, i + 1, [mem EXCEPT ![st.c] = N(st.v)], rd, logs, G)
-      [] st.op = "RDSIZE" -> Run(fr, i + 1, [mem EXCEPT ![st.c] = N(32 * Len(rd))], rd, logs, G)
+    CASE st.op = "STOP" -> Done("ok", <<>>, mem, W, G)
+      [] st.op = "RETURN" -> Done("ok", Slice(mem, st.o, st.l), mem, W, G)
+      [] st.op = "REVERT" -> Done("revert", Slice(mem, st.o, st.l), mem, W, G)
+      [] st.op = "INVALID" -> Done("invalid", <<>>, mem, W, G)
+      [] st.op = "MSTORE" -> Run(fr, i + 1, [mem EXCEPT ![st.c] = N(st.v)], rd, W, G)
+      [] st.op = "RDSIZE" -> Run(fr, i + 1, [mem EXCEPT ![st.c] = N(32 * Len(rd))], rd, W, G)
       [] st.op = "RDCOPY" ->
-           IF st.o + st.l > Len(rd) THEN Done("rdoob", <<>>, mem, logs, G)
-           ELSE Run(fr, i + 1, Blit(mem, st.d, Slice(rd, st.o + 1, st.l), st.l), rd, logs, G)
-      [] st.op = "CDCOPY" -> Run(fr, i + 1, Blit(mem, st.d, Pad(fr.input, st.l), st.l), rd, logs, G)
+           IF st.o + st.l > Len(rd) THEN Done("rdoob", <<>>, mem, W, G)
+           ELSE Run(fr, i + 1, Blit(mem, st.d, Slice(rd, st.o + 1, st.l), st.l), rd, W, G)
+      [] st.op = "CDCOPY" -> Run(fr, i + 1, Blit(mem, st.d, Pad(fr.input, st.l), st.l), rd, W, G)
       [] st.op = "LOGD" ->
-           IF fr.static THEN Done("static", <<>>, mem, logs, G)
-           ELSE Run(fr, i + 1, mem, rd, Append(logs, <<fr.ctx, st.t, Slice(mem, st.o, st.l)>>), G)
-      [] st.op = "CALL" -> LET r == DoCall(fr, st, mem, rd, logs, G) IN Run(fr, i + 1, r.mem, r.rd, r.logs, r.G)
+           IF fr.static THEN Done("static", <<>>, mem, W, G)
+           ELSE Run(fr, i + 1, mem, rd, [W EXCEPT !.logs = Append(@, <<fr.ctx, st.t, Slice(mem, st.o, st.l)>>)], G)
+      [] st.op = "SSTORE" ->
+           IF fr.static THEN Done("static", <<>>, mem, W, G)
+           ELSE Run(fr, i + 1, mem, rd, [W EXCEPT !.stor = Put(@, fr.ctx, st.k, N(st.v))], G)
+      [] st.op = "SLOAD" -> Run(fr, i + 1, [mem EXCEPT ![st.c] = Get(W.stor, fr.ctx, st.k)], rd, W, G)
+      [] st.op = "CALL" -> LET r == DoCall(fr, st, mem, rd, W, G) IN Run(fr, i + 1, r.mem, r.rd, r.W, r.G)
       [] st.op \in {"CREATE", "CREATE2"} ->
-           IF fr.static THEN Done("static", <<>>, mem, logs, G)
-           ELSE LET r == DoCreate(fr, st, mem, rd, logs, G) IN Run(fr, i + 1, r.mem, r.rd, r.logs, r.G)
+           IF fr.static THEN Done("static", <<>>, mem, W, G)
+           ELSE LET r == DoCreate(fr, st, i, mem, rd, W, G) IN Run(fr, i + 1, r.mem, r.rd, r.W, r.G)
 
-\* run a new frame; logs0 = logs surviving so far
-Enter(ch, logs0, G) ==
+\* run a new frame; W0 = the world surviving so far (restored if the frame fails)
+Enter(ch, W0, G) ==
   LET id == Len(G.frames) + 1
       G1 == [G EXCEPT !.frames = Append(@, [kind |-> ch.kind, from |-> ch.from, to |-> ch.to, class |-> "open", mem |-> <<>>])]
       res == IF ch.to \in Precompiles
-             THEN Done("ok", PrecompileOut(ch.to, ch.input), <<>>, logs0, G1)
-             ELSE Run(ch, 1, Mem0, <<>>, logs0, G1)
+             THEN Done("ok", PrecompileOut(ch.to, ch.input), <<>>, W0, G1)
+             ELSE Run(ch, 1, Mem0, <<>>, W0, G1)
       \* the memory a frame ends with is observed for frames that end by an instruction of their own
       endmem == IF ch.to \in Precompiles \/ res.class \notin {"ok", "revert"} THEN <<>>
                 ELSE [j \in 1..NCells |-> res.mem[j - 1]]
-  IN [class |-> res.class, ret |-> res.ret, logs |-> IF res.class = "ok" THEN res.logs ELSE logs0,
+  IN [class |-> res.class, ret |-> res.ret, W |-> IF res.class = "ok" THEN res.W ELSE W0,
       G |-> [res.G EXCEPT !.frames[id].class = res.class, !.frames[id].mem = endmem]]
 
-DoCall(fr, st, mem, rd, logs, G) ==
+DoCall(fr, st, mem, rd, W, G) ==
   LET ch == [kind |-> st.kind, from |-> fr.ctx, to |-> st.to, depth |-> fr.depth + 1,
              ctx |-> IF st.kind \in {"CALL", "STATICCALL"} THEN st.to ELSE fr.ctx,
              static |-> fr.static \/ st.kind = "STATICCALL",
              script |-> IF st.to = "B" THEN fr.codeB ELSE <<>>, codeB |-> fr.codeB,
              input |-> Slice(mem, st.io, st.il)]
-      r == Enter(ch, logs, G)
+      r == Enter(ch, W, G)
       n == Min(st.ol, Len(r.ret))
       mem2 == IF r.class \in {"ok", "revert"} THEN Blit(mem, st.oo, r.ret, n) ELSE mem
-  IN [mem |-> mem2, rd |-> r.ret, logs |-> r.logs,
+  IN [mem |-> mem2, rd |-> r.ret, W |-> r.W,
       G |-> Hist(AddFlag(r.G, fr, st.kind, st.to, IF r.class = "ok" THEN 1 ELSE 0), st.to, r.class, Len(r.ret), Len(r.ret))]
 
 \* Names of created contracts: N1, N2, .. in the order their addresses first appear.  A CREATE that fails before its
 \* constructor runs does not consume its address (the creation counter / nonce is not bumped): the next CREATE of the
 \* transaction gets the same address (G.reuse) unless a creation of either kind got past that point in between (which
-\* bumps the counter); CREATE2 addresses are salted and always new here.
-DoCreate(fr, st, mem, rd, logs, G) ==
-  LET fresh == st.op = "CREATE2" \/ G.reuse = ""
-      new == IF fresh THEN NewName(G.nc + 1) ELSE G.reuse
-      G0 == IF fresh THEN [G EXCEPT !.nc = @ + 1] ELSE G
+\* bumps the counter).  A CREATE2 address is a function of (creator, salt, init code): G.c2 remembers the name given to
+\* each such key, so the same key means the same address.  salt 0 stands for "the position of the step" (distinct).
+\*
+\* ADDRESS COLLISION (EIP-684, with EIP-161's nonce 1 of a created account): a creation whose address already holds
+\* code or has a non-zero nonce fails before its constructor runs - it pushes 0, empties the buffer and enters no
+\* frame.  thor has no account nonces, so the reference rule reads: collision iff the address holds non-empty code OR
+\* was created before (W.created - revertible, like the nonce).  mode = "thor" is the deviation of the real code
+\* (known finding create2-collision-empty-code): only non-empty code collides, so an address whose first creation
+\* deployed EMPTY code is created again, and the second constructor runs over the first one's storage.  It exists
+\* solely so that the check can tell this deviation from any other one.
+C2Key(fr, st, i) == <<fr.ctx, IF st.salt = 0 THEN i ELSE st.salt, st.init>>
+C2Known(G, key) == \E j \in 1..Len(G.c2) : G.c2[j][1] = key
+C2Name(G, key) == G.c2[CHOOSE j \in 1..Len(G.c2) : G.c2[j][1] = key][2]
+Collides(W, a) == a \in W.coded \/ (W.mode = "reference" /\ a \in W.created)
+
+DoCreate(fr, st, i, mem, rd, W, G) ==
+  LET key == C2Key(fr, st, i)
+      known == st.op = "CREATE2" /\ C2Known(G, key)
+      fresh == IF st.op = "CREATE2" THEN ~known ELSE G.reuse = ""
+      new == IF fresh THEN NewName(G.nc + 1) ELSE IF st.op = "CREATE2" THEN C2Name(G, key) ELSE G.reuse
+      Ga == IF fresh THEN [G EXCEPT !.nc = @ + 1] ELSE G
+      G0 == IF st.op = "CREATE2" /\ ~known THEN [Ga EXCEPT !.c2 = Append(@, <<key, new>>)] ELSE Ga
   IN IF st.val > 0
      THEN \* fails before the constructor runs (nobody owns wei): pushes 0, the buffer is emptied
-          [mem |-> mem, rd |-> <<>>, logs |-> logs,
+          [mem |-> mem, rd |-> <<>>, W |-> W,
            G |-> Hist(AddFlag(IF st.op = "CREATE" THEN [G0 EXCEPT !.reuse = new] ELSE G0, fr, st.op, new, 0), "create", "nobalance", 0, 0)]
+     ELSE IF Collides(W, new)
+     THEN \* address collision: pushes 0, the buffer is emptied, no frame (the creation counter is bumped all the same)
+          [mem |-> mem, rd |-> <<>>, W |-> W,
+           G |-> Hist(AddFlag([G0 EXCEPT !.reuse = ""], fr, st.op, new, 0), "create", "collision", 0, 0)]
      ELSE LET ch == [kind |-> st.op, from |-> fr.ctx, to |-> new, depth |-> fr.depth + 1, ctx |-> new, static |-> FALSE,
                      script |-> st.init, codeB |-> fr.codeB, input |-> <<>>]
-              r == Enter(ch, logs, [G0 EXCEPT !.reuse = ""])       \* the creator's nonce / creation counter is bumped
+              r == Enter(ch, W, [G0 EXCEPT !.reuse = ""])       \* the creator's nonce / creation counter is bumped
               rd2 == IF r.class = "revert" THEN r.ret ELSE IF Bug = "stalecreate" /\ r.class = "ok" THEN rd ELSE <<>>
-          IN [mem |-> mem, rd |-> rd2, logs |-> r.logs,
+              \* a successful creation leaves an account with nonce 1 and the returned bytes as code
+              W2 == IF r.class = "ok"
+                    THEN [r.W EXCEPT !.created = @ \cup {new}, !.coded = IF Len(r.ret) > 0 THEN @ \cup {new} ELSE @]
+                    ELSE r.W
+          IN [mem |-> mem, rd |-> rd2, W |-> W2,
               G |-> Hist(AddFlag(r.G, fr, st.op, new, IF r.class = "ok" THEN 1 ELSE 0), "create", r.class, Len(r.ret), Len(rd2))]
 
-Outcome(prog) ==
+World0(mode) == [mode |-> mode, logs |-> <<>>, stor |-> {}, created |-> {}, coded |-> {}]
+
+Outcome(mode, prog) ==
   LET root == [kind |-> "ROOT", from |-> "O", to |-> "A", depth |-> 1, ctx |-> "A", static |-> FALSE, script |-> prog.a,
                codeB |-> prog.b, input |-> <<>>]
-      r == Enter(root, <<>>, InitGhost)
-  IN [class |-> r.class, output |-> r.ret, logs |-> r.logs, frames |-> r.G.frames, flags |-> r.G.flags, ncreate |-> r.G.nc,
+      r == Enter(root, World0(mode), InitGhost)
+  IN [class |-> r.class, output |-> r.ret, logs |-> r.W.logs, frames |-> r.G.frames, flags |-> r.G.flags, ncreate |-> r.G.nc,
       rdhist |-> r.G.rdhist]
 
 \* the buffer after every completed call / creation, stated independently of the rules above
@@ -149,7 +184,7 @@ BufferLaw(o) ==
     /\ (h[1] = "create" => h[4] = (IF h[2] = "revert" THEN h[3] ELSE 0))          \* empty unless the constructor reverted
     /\ (h[1] # "create" => h[4] = h[3])                                           \* exactly what the callee handed back
     /\ (h[1] = "P1" => h[4] = 0) /\ (h[1] \in {"P2", "P3"} => h[4] = 1)
-    /\ (h[2] \in {"invalid", "static", "rdoob", "nobalance"} => h[3] = 0)          \* exceptional halts hand back nothing
+    /\ (h[2] \in {"invalid", "static", "rdoob", "nobalance", "collision"} => h[3] = 0)          \* exceptional halts hand back nothing
 
 \* ---- what the harness reads off the real EVM ------------------------------------------------------------------------
 Obs(o) == [class |-> o.class, output |-> o.output, logs |-> o.logs, flags |-> o.flags,
